@@ -19,6 +19,11 @@ pub(super) fn index_for_rcurrent(
         .unwrap_or(0);
 
     if rotate_rcurrent {
+        #[cfg(flexi_logger_verif)]
+        crate::verif_hooks::fs_point(
+            crate::verif_hooks::FsOp::Rename,
+            &config.file_spec.as_pathbuf(Some(CURRENT_INFIX)),
+        )?;
         match std::fs::rename(
             config.file_spec.as_pathbuf(Some(CURRENT_INFIX)),
             config
